@@ -27,6 +27,12 @@ type Mutant struct {
 	Expect []string
 	Benign bool
 	Why    string
+	More   []Edit // additional replacements (same or other files) belonging to the same variant
+}
+
+// Edit is one exact-text replacement.
+type Edit struct {
+	File, Old, New string
 }
 
 var mutants []Mutant
@@ -102,26 +108,40 @@ func runMutants(repo, verifDir, prop string) *MutantResult {
 
 func runOneMutant(exe, repo, verifDir, tmp string, idx int, m Mutant) MutantOutcome {
 	out := MutantOutcome{Name: m.Name, File: m.File, Benign: m.Benign}
-	abs := filepath.Join(repo, m.File)
-	src, err := os.ReadFile(abs)
-	if err != nil {
-		out.Outcome = "not-applicable"
-		out.Detail = "file missing"
-		return out
+	edits := append([]Edit{{m.File, m.Old, m.New}}, m.More...)
+	contents := map[string]string{}
+	for _, e := range edits {
+		abs := filepath.Join(repo, e.File)
+		cur, ok := contents[abs]
+		if !ok {
+			src, err := os.ReadFile(abs)
+			if err != nil {
+				out.Outcome = "not-applicable"
+				out.Detail = "file missing: " + e.File
+				return out
+			}
+			cur = string(src)
+		}
+		if strings.Count(cur, e.Old) != 1 {
+			out.Outcome = "not-applicable"
+			out.Detail = fmt.Sprintf("snippet occurs %d times in %s of the current tree", strings.Count(cur, e.Old), e.File)
+			return out
+		}
+		contents[abs] = strings.Replace(cur, e.Old, e.New, 1)
 	}
-	if strings.Count(string(src), m.Old) != 1 {
-		out.Outcome = "not-applicable"
-		out.Detail = fmt.Sprintf("snippet occurs %d times in the current tree", strings.Count(string(src), m.Old))
-		return out
+	ovm := map[string]string{}
+	n := 0
+	for abs, c := range contents {
+		mf := filepath.Join(tmp, fmt.Sprintf("m%d_%d.go", idx, n))
+		n++
+		if err := os.WriteFile(mf, []byte(c), 0o644); err != nil {
+			out.Outcome = "not-applicable"
+			out.Detail = err.Error()
+			return out
+		}
+		ovm[abs] = mf
 	}
-	mut := strings.Replace(string(src), m.Old, m.New, 1)
-	mf := filepath.Join(tmp, fmt.Sprintf("m%d.go", idx))
-	if err := os.WriteFile(mf, []byte(mut), 0o644); err != nil {
-		out.Outcome = "not-applicable"
-		out.Detail = err.Error()
-		return out
-	}
-	ov, _ := json.Marshal(map[string]string{abs: mf})
+	ov, _ := json.Marshal(ovm)
 	of := filepath.Join(tmp, fmt.Sprintf("m%d.json", idx))
 	_ = os.WriteFile(of, ov, 0o644)
 	args := []string{"-property", m.Prop, "-tier", "quick", "-repo", repo, "-verif", verifDir, "-overlay", of}
